@@ -59,7 +59,12 @@ def run(rep, tier, seed):
         for k in range(2):
             d = rnd.choice([DI.UP, DI.DOWN])
             pd.direction = d
-            rules = gen_ruleset(rnd, pd, direction=rnd.choice([DI.BIDIRECTIONAL, DI.BIDIRECTIONAL, d]))
+            if (i + k) % 5 == 0:
+                # several rules that elide the whole header (outputs differ only by the length of the rule id): BEST takes the shortest
+                rules = gen_ruleset(rnd, pd, n=rnd.randint(2, 5), match_prob=1.0, kinds=('ns', 'ns', 'map'), direction=rnd.choice([DI.BIDIRECTIONAL, d]))
+                rep.hist['ruleset-of-fully-eliding-rules'] = rep.hist.get('ruleset-of-fully-eliding-rules', 0) + 1
+            else:
+                rules = gen_ruleset(rnd, pd, direction=rnd.choice([DI.BIDIRECTIONAL, DI.BIDIRECTIONAL, d]))
             if len(rules) > 1 and rnd.random() < 0.3:
                 j = rnd.randrange(len(rules) - 1)
                 rules[j] = RuleDescriptor(id=rules[j].id, nature=RuleNature.FRAGMENTATION)
